@@ -61,6 +61,7 @@ func runC04(c *Ctx) {
 	}
 	name := shortFn(un)
 	dataP := un.Params[1]
+	c.resultPerCall(un)
 	// ---- S.no-read-dependence (SSA taint of the read parameter after the append-store)
 	var appStore *ssa.Store
 	for _, b := range un.Blocks {
@@ -761,7 +762,131 @@ func (c *Ctx) dispatchAll() {
 		return
 	}
 	n := 0
-	for _, f := range c.familyOf(reader) {
+	fam := c.familyOf(reader)
+	// functions of the family that hand a message to the writer, directly or through other family members
+	dispatches := map[*ssa.Function]bool{}
+	for changed := true; changed; {
+		changed = false
+		for _, f := range fam {
+			if dispatches[f] {
+				continue
+			}
+			for _, b := range f.Blocks {
+				for _, ins := range b.Instrs {
+					if s, isS := ins.(*ssa.Send); isS {
+						if _, fld, ok := fieldLoad(s.Chan); ok && fld == "msgChan" {
+							dispatches[f] = true
+						}
+					}
+					if call, isC := ins.(*ssa.Call); isC {
+						if sc := call.Call.StaticCallee(); sc != nil && dispatches[sc] {
+							dispatches[f] = true
+						}
+					}
+				}
+			}
+			if dispatches[f] {
+				changed = true
+			}
+		}
+	}
+	isHandOver := func(ins ssa.Instruction) bool {
+		if s, isS := ins.(*ssa.Send); isS {
+			_, fld, ok := fieldLoad(s.Chan)
+			return ok && fld == "msgChan"
+		}
+		if call, isC := ins.(*ssa.Call); isC {
+			if sc := call.Call.StaticCallee(); sc != nil && dispatches[sc] {
+				return true
+			}
+		}
+		return false
+	}
+	// a helper that holds the loop over the batch but not the Read: leaving the loop early must not end where finishing
+	// the loop ends (the caller then goes on to the next Read as if the batch had been dispatched)
+	for _, f := range fam {
+		hasRead := false
+		for _, b := range f.Blocks {
+			for _, ins := range b.Instrs {
+				if call, isC := ins.(*ssa.Call); isC {
+					if nm, _ := callMethodName(call); nm == "Read" {
+						hasRead = true
+					}
+				}
+			}
+		}
+		if hasRead || f == reader {
+			continue
+		}
+		loops := loopsByHeader(f)
+		for _, b := range f.Blocks {
+			for _, ins := range b.Instrs {
+				if !isHandOver(ins) {
+					continue
+				}
+				var batch map[*ssa.BasicBlock]bool
+				var head *ssa.BasicBlock
+				for h, l := range loops {
+					if l[b] && (batch == nil || len(l) < len(batch)) {
+						batch, head = l, h
+					}
+				}
+				if batch == nil {
+					continue
+				}
+				n++
+				returnsFrom := func(from *ssa.BasicBlock) map[*ssa.BasicBlock]bool {
+					out := map[*ssa.BasicBlock]bool{}
+					seen := map[*ssa.BasicBlock]bool{from: true}
+					work := []*ssa.BasicBlock{from}
+					for len(work) > 0 {
+						x := work[len(work)-1]
+						work = work[:len(work)-1]
+						if _, isR := x.Instrs[len(x.Instrs)-1].(*ssa.Return); isR {
+							out[x] = true
+						}
+						for _, su := range x.Succs {
+							if !seen[su] && !batch[su] {
+								seen[su] = true
+								work = append(work, su)
+							}
+						}
+					}
+					return out
+				}
+				normal := map[*ssa.BasicBlock]bool{}
+				for _, su := range head.Succs {
+					if !batch[su] {
+						for r := range returnsFrom(su) {
+							normal[r] = true
+						}
+					}
+				}
+				st, d := report.Discharged, ""
+				for lb := range batch {
+					if lb == head {
+						continue
+					}
+					for _, su := range lb.Succs {
+						if batch[su] {
+							continue
+						}
+						for r := range returnsFrom(su) {
+							if normal[r] {
+								pos := c.P.RelPos(lb.Instrs[len(lb.Instrs)-1].Pos())
+								for k := len(lb.Instrs) - 1; k >= 0 && pos == "?"; k-- {
+									pos = c.P.RelPos(lb.Instrs[k].Pos())
+								}
+								st, d = report.Violated, "the loop over the messages of one read is left early near "+pos+" and the helper returns as it does after the whole batch: the remaining frames of a coalesced read are dropped (how many messages a stream yields then depends on its segmentation)"
+							}
+						}
+					}
+				}
+				R.Add("S.dispatch-all", shortFn(f)+" / "+c.constructOf(f, ins), c.P.RelPos(ins.Pos()), st, d)
+			}
+		}
+	}
+	for _, f := range fam {
 		var readBlocks []*ssa.BasicBlock
 		for _, b := range f.Blocks {
 			for _, ins := range b.Instrs {
@@ -778,13 +903,10 @@ func (c *Ctx) dispatchAll() {
 		loops := loopsByHeader(f)
 		for _, b := range f.Blocks {
 			for _, ins := range b.Instrs {
-				s, isS := ins.(*ssa.Send)
-				if !isS {
+				if !isHandOver(ins) {
 					continue
 				}
-				if _, fld, ok := fieldLoad(s.Chan); !ok || fld != "msgChan" {
-					continue
-				}
+				s := ins
 				// the innermost loop around the hand-over that does not contain the Read: the loop over the batch
 				var batch map[*ssa.BasicBlock]bool
 				var head *ssa.BasicBlock
@@ -851,4 +973,110 @@ func (c *Ctx) dispatchAll() {
 		R.Fatal("S.dispatch-all: no loop around the hand-over to the writer found in the reader family (anchor)")
 	}
 	R.Require("S.dispatch-all", 1, "")
+}
+
+// resultPerCall: "each frame yields exactly one message" - the list the extractor returns is built by that call: nil, a
+// list made in the call, or appends to such a list (through package helpers). A list kept in the parser between calls
+// hands the messages of an earlier read out again unless every exit resets it.
+func (c *Ctx) resultPerCall(un *ssa.Function) {
+	R := c.R
+	rule := "S.result-per-call"
+	R.Rules[rule] = "every list of messages the extractor returns is built in that call (nil, made in the call, appended to such a list - through package helpers too), not loaded from the parser or another object that outlives the call: a message extracted by one read is not handed out again by the next"
+	var trace func(v ssa.Value, seen map[ssa.Value]bool, depth int) string
+	trace = func(v ssa.Value, seen map[ssa.Value]bool, depth int) string {
+		if seen[v] || depth > 14 {
+			return ""
+		}
+		seen[v] = true
+		switch x := v.(type) {
+		case *ssa.Const:
+			return ""
+		case *ssa.MakeSlice:
+			return ""
+		case *ssa.Phi:
+			for _, e := range x.Edges {
+				if why := trace(e, seen, depth+1); why != "" {
+					return why
+				}
+			}
+			return ""
+		case *ssa.Slice:
+			if al, isAl := x.X.(*ssa.Alloc); isAl {
+				_ = al // varargs array
+				return ""
+			}
+			return trace(x.X, seen, depth+1)
+		case *ssa.Call:
+			if bi, ok := x.Call.Value.(*ssa.Builtin); ok && bi.Name() == "append" {
+				return trace(x.Call.Args[0], seen, depth+1)
+			}
+			if sc := x.Call.StaticCallee(); sc != nil && len(sc.Blocks) > 0 && c.P.IsRepoFunc(sc) {
+				for _, b := range sc.Blocks {
+					if ret, isR := b.Instrs[len(b.Instrs)-1].(*ssa.Return); isR {
+						for _, rv := range ret.Results {
+							if _, isSl := rv.Type().Underlying().(*types.Slice); !isSl {
+								continue
+							}
+							if why := trace(rv, seen, depth+1); why != "" {
+								return why + " (returned by " + shortFn(sc) + ")"
+							}
+						}
+					}
+				}
+				return ""
+			}
+			return "the result of " + calleeName(&x.Call)
+		case *ssa.Extract:
+			return trace(x.Tuple, seen, depth+1)
+		case *ssa.UnOp:
+			if x.Op == token.MUL {
+				if al, isAl := x.X.(*ssa.Alloc); isAl {
+					for _, ref := range *al.Referrers() {
+						if st, isSt := ref.(*ssa.Store); isSt && st.Addr == al {
+							if why := trace(st.Val, seen, depth+1); why != "" {
+								return why
+							}
+						}
+					}
+					return ""
+				}
+				if fa, isFA := x.X.(*ssa.FieldAddr); isFA {
+					_, fname, _ := fieldNameOfAddr(fa)
+					return "loaded from the field " + fname + ", which outlives the call"
+				}
+				if g, isG := x.X.(*ssa.Global); isG {
+					return "loaded from the package variable " + g.Name()
+				}
+			}
+		case *ssa.Parameter:
+			return "the parameter " + x.Name()
+		}
+		return fmt.Sprintf("%T", v)
+	}
+	n := 0
+	for _, b := range un.Blocks {
+		ret, isR := b.Instrs[len(b.Instrs)-1].(*ssa.Return)
+		if !isR {
+			continue
+		}
+		for _, rv := range ret.Results {
+			sl, isSl := rv.Type().Underlying().(*types.Slice)
+			if !isSl {
+				continue
+			}
+			if _, isPtr := sl.Elem().Underlying().(*types.Pointer); !isPtr {
+				continue
+			}
+			n++
+			st, d := report.Discharged, ""
+			if why := trace(rv, map[ssa.Value]bool{}, 0); why != "" {
+				st, d = report.Violated, "the returned list is "+why+": unless every exit empties it, the messages of this read are returned again by the next call - one frame, several messages"
+			}
+			R.Add(rule, fmt.Sprintf("%s / return #%d", shortFn(un), n), c.P.RelPos(ret.Pos()), st, d)
+		}
+	}
+	if n == 0 {
+		R.Fatal("%s: the extractor returns no list of messages (anchor)", rule)
+	}
+	R.Require(rule, 1, "")
 }
